@@ -46,6 +46,7 @@ def run(idx: ProgramIndex, rep: Report, tier: str):
     full_noise_used(idx, rep)
     call_time_noise_forwarded(idx, rep)
     positional_contract(idx, rep)
+    whole_noise_outside(idx, rep)
 
 
 def marginals(idx: ProgramIndex, rep: Report):
@@ -679,3 +680,32 @@ def positional_contract(idx: ProgramIndex, rep: Report):
                         "%s.%s is called as %s(%s, *params, **kwargs) by the code written against %s; this override has the positional parameter(s) %s in front of *params, so the first positional likelihood parameters of the caller (the inputs x of lik(f, x) / expected_log_prob(y, dist, x)) are bound to them"
                         % (cls.qualname, name, name, ", ".join(base[1:]), pm.cls.qualname if pm.cls else "?", ", ".join(extra)), {})
     rep.floor("C12-9", "overrides of *params methods in the likelihood classes", n, 15)
+
+
+# ---- C12-10 --------------------------------------------------------------------------------------------------------
+def whole_noise_outside(idx: ProgramIndex, rep: Report):
+    """R, the noise a Gaussian-family likelihood adds, is what `_shaped_noise_covar` (and hence marginal / __call__) returns: the first noise
+    model PLUS whatever the class adds on top (FixedNoiseGaussianLikelihood(learn_additional_noise=True): second_noise_covar).  Code outside
+    the likelihood classes that needs R must ask the likelihood for it; `likelihood.noise_covar(...)` is only the first noise model."""
+    rep.rule("C12-10", "code outside the likelihood classes obtains the noise through the likelihood (marginal / __call__ / _shaped_noise_covar), never from likelihood.noise_covar alone: a likelihood may add further noise terms")
+    L = idx.find_class("_Likelihood")
+    lik_classes = set([L] + list(idx.subclasses(L)))
+    # is there a likelihood whose _shaped_noise_covar adds something to noise_covar?
+    adders = []
+    for cls in lik_classes:
+        m = cls.methods.get("_shaped_noise_covar")
+        if m is not None and any(isinstance(x, ast.Attribute) and "second_noise" in x.attr for x in ast.walk(m.node)):
+            adders.append(cls.qualname)
+    if not adders:
+        raise AnalysisError("C12-10: no likelihood adds a second noise term to noise_covar any more (anchor vanished)")
+    n = 0
+    for fi in sorted(idx.all_functions(), key=lambda f: (f.module.name, f.qualname)):
+        if fi.cls is not None and (fi.cls in lik_classes or fi.module.name.startswith("gpytorch.likelihoods")):
+            continue
+        sites = [c for c in calls_in(fi.node) if isinstance(c.func, ast.Attribute) and c.func.attr == "noise_covar" and "likelihood" in src(c.func.value).lower()]
+        if not sites:
+            continue
+        n += 1
+        rep.add("C12-10", "%s:%s[%d direct call(s) of likelihood.noise_covar]" % (fi.module.name, fi.qualname, len(sites)), "%s:%d" % (fi.module.relpath, sites[0].lineno), False,
+                "`%s` takes the first noise model of the likelihood as THE noise: with %s(learn_additional_noise=True) the second noise term is missing - KISS-GP fantasy update: mean 0.305 / covariance 0.099 from the dense conditional, equal to the conditional computed with second_noise = 0 to 1e-8" % (" ".join(src(sites[0]).split())[:60], adders[0]), {})
+    rep.add("C12-10", "gpytorch:<direct uses of likelihood.noise_covar outside the likelihood classes>", "gpytorch/", True, "%d function(s) inspected use it" % n, {"functions": n}, trivial=True)
